@@ -827,6 +827,9 @@ func c17UDP(c c17Case, res map[string]any) {
 				fail("address rewritten although the datagram does not open as a QUIC Initial")
 			case refHole:
 				detail("bytes " + strconv.FormatUint(refFrom, 10) + ".." + strconv.FormatUint(refTo, 10) + " of the CRYPTO stream are in no frame of the datagram")
+				if c.Build != nil && c.Build.Sni != nil && addr != net.JoinHostPort(*c.Build.Sni, port0) {
+					fail("address rewritten from truncated input (the CRYPTO frames of the datagram leave a hole below the highest frame) to a host name that is not in the datagram")
+				}
 				fail("address rewritten from truncated input: the CRYPTO frames of the datagram leave a hole below the highest frame")
 			case refAllowed == nil:
 				detail("no ClientHello with a server name in the CRYPTO bytes present")
